@@ -210,7 +210,7 @@ func (rpcapi *ClusterRPCAPI) PinsRaw(ctx context.Context, in struct{}, out *[]*a
 		return err
 	}
 	c.vacatePeer(ctx, pid)'''),
- ('C10-hand-sweep-without-closest', 'cluster.go', '		if p.ExpiredAt(timeNow) && distance.isClosest(p.Cid) {', '		if p.ExpiredAt(timeNow) {'),
+ ('C10-hand-sweep-without-closest', 'cluster.go', '		if p.ExpiredAt(timeNow) && distance.isClosest(p.Cid) {', '		if p.ExpiredAt(timeNow) && distance != nil {'),
  # C11
  ('C11-hand-server-without-auth', 'api/rest/restapi.go',
   '''	handler := basicAuthHandler(
